@@ -610,6 +610,25 @@ CHECKS['C05']['jobs'] += _real_runner(_mode_jobs('MODE_FAIL', [48], reach=('fail
 for _j in CHECKS['C05']['jobs']:
     if _j['name'] in ('wide3_procs', 'wide2_procs'): _j['thorough_only'] = True; _j['limits'] = dict(_j.get('limits', {}), time=3400)      # (neither fits the quick tier's time limit on a shared machine; ParseExitStatus is covered by exit_status, the failure paths of the process layer by C06 wide3_tokens_fail_procs and C20 pools_fail_procs)
 
+# ---- quick-tier budget (vp check stops a quick command after 900 s; every job costs about a minute of IR / native build and cross-validation on top of
+# its exploration): per property the quick tier keeps the jobs listed here - chosen so that every seeded change stays caught in the quick tier, by this
+# property's check or by the one named in seeded/<id>/meta.json - and everything else of that property runs in the thorough tier.
+_QUICK_KEEP = {
+    'C01': ('diamond_order_only', 'generated_header_deps', 'restat_order_only_newer', 'restat_and_plain_inputs', 'restat_two_outputs', 'restat_then_deps', 'dirty_kernel', 'dirty_kernel_phony', 'dirty_kernel_deps'),
+    'C03': ('restat_order_only_newer', 'phony_mixed_restat', 'restat_behind_alias', 'restat_two_outputs', 'dyndep_logtools', 'restat_phony', 'dirty_kernel', 'dirty_kernel_phony'),
+    'C05': ('chain', 'wide3', 'wide3_tokens', 'depfile_plain_built', 'exit_status'),
+    'C10': ('generated_header_deps', 'depfile_noncanonical_path', 'include_switch', 'restat_with_deps', 'deps_msvc', 'showincludes_roundtrip', 'dirty_kernel_deps'),
+    'C11': ('dyndep_single_edit', 'dyndep_two_files_bad', 'dyndep_bad', 'dyndep_checked_in_logtools', 'dyndep_input_also_order_only', 'dyndep_clean_root', 'dyndep_restat_producer', 'dyndep_consumer_first'),
+    'C19': ('diamond_order_only', 'independent_depfile_edges_leftovers', 'json', 'tools_mix_tools', 'diamond_order_only_tools'),
+    'C20': ('pools', 'multi_out_phony', 'dyndep_built_counters', 'phony_in_console_pool', 'multi_out_phony_long_procs', 'diamond_order_only_statfail', 'pools_custom_format'),
+}
+for _p, _keep in _QUICK_KEEP.items():
+    for _j in CHECKS[_p]['jobs']:
+        if _j['name'] not in _keep: _j['thorough_only'] = True
+for _p, _names in (('C06', ('wide3_load_procs', 'dyndep_input_in_pool_fail', 'pool_depth2_wide', 'diamond_order_only_tokens_statfail')), ('C17', ('cycle_explicit_main',))):
+    for _j in CHECKS[_p]['jobs']:
+        if _j['name'] in _names: _j['thorough_only'] = True
+
 # ---- the thorough tier as it is actually run: every job of the quick tier at the same bounds, plus the thorough_only jobs (heavier shapes, built-then-perturbed
 # states, all-subsets edits), plus deeper bounds for the byte-level kernels (C08 C09 C13 C14 C15 C16 C19/json).  Three-invocation histories of *every* pipeline shape
 # (the first version's thorough tier) take many hours on 16 cores and were never run to completion, so they are not what `--tier thorough` means any more; the
